@@ -1099,6 +1099,12 @@ class Interp:
         if isinstance(obj, Opaque) and obj.kind == "str" and isinstance(idx, slice) and not _has_sym((idx.start, idx.stop)):
             f = z3.Function(f"str_slice_{idx.start}_{idx.stop}", OpaqueSort, OpaqueSort)
             return Opaque(f(obj.t), "str")
+        if isinstance(obj, Opaque) and isinstance(idx, int) and not isinstance(idx, bool):
+            # element of a value the analysis knows nothing about (a decoded response): an uninterpreted function of
+            # the value and the position; assumed: the position exists
+            self.ctx.assumptions_used.add("record:element of an opaque sequence (decoded response) exists at the index used")
+            f = z3.Function(f"item_{idx}".replace("-", "m"), OpaqueSort, OpaqueSort)
+            return Opaque(f(obj.t), "opaque")
         if isinstance(obj, Sym):
             raise Unsupported(f"subscript of {type(obj).__name__}")
         if isinstance(idx, slice) and _has_sym((idx.start, idx.stop)):
